@@ -253,6 +253,11 @@ func (p *Prover) LenOf(v ssa.Value) LForm {
 		}
 	case *ssa.ChangeType:
 		return p.LenOf(x.X)
+	case *ssa.BinOp:
+		// string concatenation
+		if x.Op == token.ADD && isByteish(x.Type()) {
+			return p.LenOf(x.X).Add(p.LenOf(x.Y), 1)
+		}
 	case *ssa.Call:
 		if b, ok := x.Call.Value.(*ssa.Builtin); ok && b.Name() == "append" && len(x.Call.Args) == 2 {
 			return p.LenOf(x.Call.Args[0]).Add(p.LenOf(x.Call.Args[1]), 1)
